@@ -24,7 +24,7 @@
 // History tokens (global order of the engine's log, see ocaml/C05/main.ml):
 //
 //	X0 / X1 the caller's cancel() is about to be called / has returned; <p>.pre.<ok|gun|warm|sched>; <p>.P.<e>.<s|u>; <p>.A.<e>.<s|u>; <p>.S.<n>.<e>.<s|u>;
-//	<p>.R.<id>.<e>.<s|u>; <p>.sf; <p>.fc; <p>.fz; E.<p>; E.c; E.ret
+//	<p>.R.<id>.<e>.<s|u>; <p>.!<cause> (a mock is about to fail); <p>.sf; <p>.fc; <p>.fz; E.<p>; E.c; E.ret
 //	<e> = nil|ctx|ooa|f.<cause>; s = error sent to Run, u = "Error suppressed after run cancel".
 package main
 
@@ -92,6 +92,7 @@ type runState struct {
 // ---- provider ----
 
 type mockProvider struct {
+	pm      *poolMocks
 	plan    poolPlan
 	mu      sync.Mutex
 	calls   int
@@ -108,11 +109,13 @@ func (p *mockProvider) Run(ctx context.Context, _ core.ProviderDeps) error {
 		p.mu.Lock()
 		p.failed = true
 		p.mu.Unlock()
+		p.pm.fault("prov")
 		return errProv
 	}
 	select {
 	case <-ctx.Done():
 		if isFault && p.plan.gate {
+			p.pm.fault("prov")
 			return errProv
 		}
 		if p.plan.ctxret {
@@ -120,6 +123,7 @@ func (p *mockProvider) Run(ctx context.Context, _ core.ProviderDeps) error {
 		}
 		return nil
 	case <-p.trigger:
+		p.pm.fault("prov")
 		return errProv
 	}
 }
@@ -143,6 +147,7 @@ func (p *mockProvider) Release(core.Ammo) {}
 // ---- aggregator ----
 
 type mockAggregator struct {
+	pm      *poolMocks
 	plan    poolPlan
 	mu      sync.Mutex
 	reports int
@@ -156,11 +161,13 @@ func (a *mockAggregator) Run(ctx context.Context, _ core.AggregatorDeps) error {
 		return nil
 	}
 	if isFault && !a.plan.gate && a.plan.k == 0 {
+		a.pm.fault("aggr")
 		return errAggr
 	}
 	select {
 	case <-ctx.Done():
 		if isFault && a.plan.gate {
+			a.pm.fault("aggr")
 			return errAggr
 		}
 		if a.plan.ctxret {
@@ -168,6 +175,7 @@ func (a *mockAggregator) Run(ctx context.Context, _ core.AggregatorDeps) error {
 		}
 		return nil
 	case <-a.trigger:
+		a.pm.fault("aggr")
 		return errAggr
 	}
 }
@@ -183,6 +191,13 @@ func (a *mockAggregator) Report(core.Sample) {
 }
 
 // ---- gun (closable, with warm-up) ----
+
+// fault logs (into the engine's own log, so that it is ordered with the engine's steps) that a
+// mock is about to fail: the ground truth of "a component failed" does not depend on what the
+// engine makes of the failure.
+func (pm *poolMocks) fault(what string) {
+	pm.rs.log.Info("verif-fault", zap.Int("p", pm.idx), zap.String("what", what))
+}
 
 type poolMocks struct {
 	idx        int
@@ -201,6 +216,7 @@ type mockGun struct {
 
 func (g *mockGun) WarmUp(*warmup.Options) (interface{}, error) {
 	if g.pm.plan.fault == "warm" {
+		g.pm.fault("warm")
 		return nil, errWarm
 	}
 	return nil, nil
@@ -209,6 +225,7 @@ func (g *mockGun) WarmUp(*warmup.Options) (interface{}, error) {
 func (g *mockGun) Bind(aggr core.Aggregator, _ core.GunDeps) error {
 	c := int(g.pm.bindCalls.Add(1))
 	if g.pm.plan.fault == "bind" && c == g.pm.plan.k+1 {
+		g.pm.fault("bind")
 		return errBind
 	}
 	g.aggr = aggr
@@ -225,6 +242,7 @@ func (g *mockGun) Shoot(core.Ammo) {
 		<-rs.release
 	}
 	if g.pm.plan.fault == "panic" && c == g.pm.plan.k {
+		g.pm.fault("panic")
 		panic(panicText)
 	}
 	g.aggr.Report(c)
@@ -238,6 +256,7 @@ func (g *mockGun) Close() error {
 func (pm *poolMocks) newGun() (core.Gun, error) {
 	c := int(pm.gunCalls.Add(1))
 	if pm.plan.fault == "gun" && c == pm.plan.k+1 { // k = 0: the warm-up call
+		pm.fault("gun")
 		return nil, errGun
 	}
 	pm.rs.created.Add(1)
@@ -247,6 +266,7 @@ func (pm *poolMocks) newGun() (core.Gun, error) {
 func (pm *poolMocks) newSchedule() (core.Schedule, error) {
 	c := int(pm.schedCalls.Add(1))
 	if pm.plan.fault == "sched" && c == pm.plan.k+1 {
+		pm.fault("sched")
 		return nil, errSched
 	}
 	if pm.plan.tokens < 0 {
@@ -374,6 +394,8 @@ func history(all []observer.LoggedEntry, npools int, plans []poolPlan) []string 
 				out = append(out, "X1")
 			}
 			cancels++
+		case "verif-fault":
+			out = append(out, fmt.Sprintf("%d.!%s", fieldInt(e, "p"), fieldStr(e, "what")))
 		case "verif-pre-fail":
 			pp := fieldInt(e, "p")
 			preDone[pp] = true
@@ -437,8 +459,8 @@ func runCase(line string) string {
 	for i, pl := range plans {
 		pm := &poolMocks{idx: i, plan: pl, rs: rs}
 		idx := i
-		prov := &mockProvider{plan: pl, trigger: make(chan struct{})}
-		aggr := &mockAggregator{plan: pl, trigger: make(chan struct{})}
+		prov := &mockProvider{pm: pm, plan: pl, trigger: make(chan struct{})}
+		aggr := &mockAggregator{pm: pm, plan: pl, trigger: make(chan struct{})}
 		pc := engine.InstancePoolConfig{
 			Provider:        prov,
 			Aggregator:      aggr,
